@@ -253,6 +253,15 @@ func (t *Dense) SliceInto(view *Dense, slices ...Slice) (retVal View, err error)
 	}
 
 	view.AP.zero()
+	// a pending transposition belongs to the view's previous life: a later UT() would put that
+	// access pattern over the new window
+	if !view.old.IsZero() {
+		view.old.zero()
+	}
+	if view.transposeWith != nil {
+		ReturnInts(view.transposeWith)
+		view.transposeWith = nil
+	}
 
 	view.t = t.t
 	view.e = t.e
